@@ -32,6 +32,7 @@ EXPLANATION = (
     "model_description always returns a Model); R2.6 expansion semantics: every overload is summarised by abstract "
     "interpretation in a term-set domain (generators over the operands' terms and factors) and compared with the "
     "documented Wilkinson-Rogers / lme4 expansion for every supported operand shape."
+    " R2.7 the resolver hands the value of a parenthesised sub-expression to the enclosing operator untouched (C01's R1.10; a temporary holding it is used exactly once)."
 )
 ASSUMPTIONS = [
     "Python: a class defining __eq__ without __hash__ is unhashable; binary operators try __op__ then the reflected method; no reflected methods exist in the package",
